@@ -174,6 +174,37 @@ def _handle_is_fresh(cx, fn, call):
     return False
 
 
+def _distinct_instances(cx, fn, g, call):
+    """the guard's handle and the receiver of the direct handle method are proven to be different containers: the call
+    lies on the false edge of `a.is_same_instance(b)` for exactly these two handles"""
+    from .narrow import edge_side
+    du = cx.du(fn)
+    gd = du.single_def(g)
+    if gd is None or gd[2] != "call" or not gd[3].args or not call.args:
+        return False
+
+    from .narrow import Sym, place_fields as pf
+    sym = Sym(cx, fn)
+
+    def handle(op):
+        p = op_place(op)
+        if p is None:
+            return None
+        return sym.canon(p[0], pf(p))
+    h1, h2 = handle(gd[3].args[0]), handle(call.args[0])
+    if h1 is None or h2 is None or h1 == h2:
+        return False
+    cfg = cx.cfg(fn)
+    for c in fn.calls():
+        if c.short.rsplit("::", 1)[-1] != "is_same_instance" or len(c.args) < 2 or c.dest[1]:
+            continue
+        if {handle(c.args[0]), handle(c.args[1])} != {h1, h2}:
+            continue
+        if (c.bb == call.bb or cfg.dominates(c.bb, call.bb)) and edge_side(cx, fn, cfg, c.bb, c.dest[0], call.bb) == "false":
+            return True
+    return False
+
+
 def rule_borrow(cx, tier, cfg_name="rc"):
     r = RuleResult("R-BORROW", "no guard of a shared container cell (list data, map data, metamap, iterator, module "
                                "loader/cache, file …) is held across a call that can take a conflicting guard of the "
@@ -218,6 +249,10 @@ def rule_borrow(cx, tier, cfg_name="rc"):
                 if _handle_is_fresh(cx, fn, c) and bi.direct.get(t):
                     r.sample({"fn": label, "guard": f"{T}:{held}", "call": c.short, "line": c.line,
                               "verdict": "ok: receiver is a fresh container"})
+                    continue
+                if bi.direct.get(t) and _distinct_instances(cx, fn, g, c):
+                    r.sample({"fn": label, "guard": f"{T}:{held}", "call": c.short, "line": c.line,
+                              "verdict": "ok: the two handles are tested to be different instances"})
                     continue
                 if (fn.qual, c.short) in EXEMPT:
                     r.sample({"fn": label, "guard": f"{T}:{held}", "call": c.short, "line": c.line,
